@@ -16,8 +16,18 @@ import fcntl, glob, hashlib, json, os, re, shutil, subprocess, sys, time
 
 VERIF = os.path.dirname(os.path.dirname(os.path.abspath(__file__)))
 REPO = os.environ.get("VERIF_REPO", "/repo")
-COQ = os.path.join(VERIF, "coq")
 BUILD = os.path.join(VERIF, ".build")
+COQ = os.path.join(VERIF, "coq")
+if os.path.realpath(REPO) != "/repo":
+    # scratch worktree (mutation testing): use a private copy of the Coq tree so
+    # that regenerated gen/*.v from the mutated sources never touch /verif/coq
+    _alt = os.path.join(BUILD, "alt-" + hashlib.sha1(os.path.realpath(REPO).encode()).hexdigest()[:10])
+    if not os.path.exists(os.path.join(_alt, "coq")):
+        os.makedirs(_alt, exist_ok=True)
+        subprocess.run(["cp", "-a", COQ, os.path.join(_alt, "coq")], check=True)
+    else:
+        subprocess.run(["rsync", "-a", "--exclude", "gen/", "--exclude", "_CoqProject", "--exclude", "Makefile*", "--exclude", ".Makefile.d", COQ + "/", os.path.join(_alt, "coq") + "/"], check=True)
+    COQ = os.path.join(_alt, "coq")
 GOENV = dict(os.environ, GOFLAGS="-mod=mod", GOPROXY="off", GOSUMDB="off", GOTOOLCHAIN="local",
              CGO_ENABLED="0")
 ALLOWED_AXIOMS = {
@@ -134,19 +144,23 @@ def parse_assumptions(output, theorems):
 
 
 def build_harness(rundir, family):
+    """builds harness/cmd/<family> against REPO's working tree.  The module file
+    is generated per run (go build -modfile) so that REPO can be a scratch
+    worktree (mutation testing) without touching /verif/harness/go.mod."""
     hdir = os.path.join(VERIF, "harness")
     exe = os.path.join(rundir, "harness")
-    with Lock("go"):
-        shutil.copyfile(os.path.join(REPO, "go.sum"), os.path.join(hdir, "go.sum"))
-        rc, out = sh(["go", "build", "-tags", "verif", "-o", exe, "./cmd/" + family], cwd=hdir, timeout=1800)
+    modfile = os.path.join(rundir, "go.mod")
+    open(modfile, "w").write(open(os.path.join(hdir, "go.mod")).read().replace("=> /repo", "=> " + REPO))
+    shutil.copyfile(os.path.join(REPO, "go.sum"), os.path.join(rundir, "go.sum"))
+    rc, out = sh(["go", "build", "-modfile=" + modfile, "-tags", "verif", "-o", exe, "./cmd/" + family], cwd=hdir, timeout=1800)
     return rc == 0, out, exe
 
 
-def build_gen(rundir):
+def build_gen(rundir, name):
+    """translators are std-lib-only Go programs under gen/cmd/<name>; usage: <exe> <repo> <outdir>"""
     gdir = os.path.join(VERIF, "gen")
-    exe = os.path.join(rundir, "gen")
-    with Lock("go"):
-        rc, out = sh(["go", "build", "-o", exe, "."], cwd=gdir, timeout=600)
+    exe = os.path.join(rundir, "gen-" + name)
+    rc, out = sh(["go", "build", "-o", exe, "./cmd/" + name], cwd=gdir, timeout=600)
     return rc == 0, out, exe
 
 
@@ -181,8 +195,11 @@ def default_matcher(payload, known):
     return None
 
 
+EVDIR = os.environ.get("VERIF_EVIDENCE_DIR") or os.path.join(VERIF, "evidence")
+
+
 def write_replay(pid, payload):
-    d = os.path.join(VERIF, "evidence", "replay")
+    d = os.path.join(EVDIR, "replay")
     os.makedirs(d, exist_ok=True)
     n = 1
     while os.path.exists(os.path.join(d, "%s-%d.json" % (pid, n))):
@@ -207,18 +224,26 @@ def run_check(cfg, tier, seed, replay=None):
         # 1. translators
         gen_ok = True
         if cfg.get("translators"):
-            ok, out, gexe = build_gen(rundir)
-            if not ok:
-                gen_ok = False
-                notes.append("translator build failed: " + out[-2000:])
-            else:
-                os.makedirs(os.path.join(COQ, "gen"), exist_ok=True)
-                for t in cfg["translators"]:
-                    with Lock("coq"):
-                        rc, out = sh([gexe, t, REPO, os.path.join(COQ, "gen")], timeout=300)
-                    if rc != 0:
-                        gen_ok = False
-                        notes.append("translator %s failed closed: %s" % (t, out[-2000:]))
+            os.makedirs(os.path.join(COQ, "gen"), exist_ok=True)
+            for t in cfg["translators"]:
+                ok, out, gexe = build_gen(rundir, t)
+                if not ok:
+                    gen_ok = False
+                    notes.append("translator %s build failed: %s" % (t, out[-2000:]))
+                    continue
+                tmpd = os.path.join(rundir, "gen-out-" + t)
+                os.makedirs(tmpd, exist_ok=True)
+                rc, out = sh([gexe, REPO, tmpd], timeout=300)
+                if rc != 0:
+                    gen_ok = False
+                    notes.append("translator %s failed closed: %s" % (t, out[-2000:]))
+                    continue
+                with Lock("coq"):
+                    for f in os.listdir(tmpd):
+                        dst = os.path.join(COQ, "gen", f)
+                        new = open(os.path.join(tmpd, f)).read()
+                        if not os.path.exists(dst) or open(dst).read() != new:
+                            open(dst, "w").write(new)      # only touch when changed: keeps .vo fresh
             if not gen_ok:
                 violations.append(("unproved", {"what": "translator could not regenerate the model from source", "notes": notes}))
 
@@ -375,8 +400,8 @@ def run_check(cfg, tier, seed, replay=None):
         ev = {"property_id": pid, "tier": tier, "seed": seed, "level": "proof", "coverage": cov,
               "assumptions": cfg.get("assumptions", []) + notes, "wall_s": round(time.time() - t0, 2),
               "violations": len(final)}
-        os.makedirs(os.path.join(VERIF, "evidence"), exist_ok=True)
-        json.dump(ev, open(os.path.join(VERIF, "evidence", pid + ".json"), "w"), indent=1, default=str)
+        os.makedirs(EVDIR, exist_ok=True)
+        json.dump(ev, open(os.path.join(EVDIR, pid + ".json"), "w"), indent=1, default=str)
         return exitcode
     finally:
         shutil.rmtree(rundir, ignore_errors=True)
